@@ -9,7 +9,7 @@ READY = True
 THEOREMS = ["C03_lists_cleanup_iff_heap", "C03_own_cleanup_iff", "C03_post_return_iff_heap", "C03_params_have_allocations_iff",
             "C03_memory_cleanup_traversal_is_stack_neutral", "C03_direct_cleanup_consumes_flattened_operands",
             "C03_direct_cleanup_wide_flags_refuted", "C03_deallocate_in_types_indirect_never_panics",
-            "C03_deallocate_in_types_direct_never_panics"]
+            "C03_deallocate_in_types_direct_never_panics", "C03_post_return_never_panics_when_requested"]
 KINDS = ("dealloc", "post_return", "facts")
 
 
